@@ -34,6 +34,7 @@ sat = z3.Function('sat', F, hp.SetH)     # satisfaction set in THE structure of 
 or_w = z3.Function('or_witness', F, H, F)
 ex_w = z3.Function('ex_witness', F, H, H)
 eg_w = z3.Function('eg_witness', F, H, H)
+nonfair = z3.Function('non_fair_formula', F, H, F)    # result of get_equivalent_non_fair_formula(label)
 
 
 def T(name):
@@ -237,6 +238,8 @@ class FormulaExt(Extension):
             return SV('coll', None, Coll('F', z3.Lambda([c], iskid(f, c)), False))
         if attr == 'get_equivalent_restricted_formula':
             return SV('F', restr(f))
+        if attr == 'get_equivalent_non_fair_formula' and len(args) == 1 and args[0].ty == 'H':
+            return SV('F', nonfair(f, args[0].t))
         return None
 
     def call_func(self, E, ex, fn, args, kwargs, path, node):
